@@ -104,6 +104,18 @@ func genDefinition(t *rapid.T) defGen {
 		}
 		g.D.LogPredicates = append(g.D.LogPredicates, svc.LogPredicate{LogValueRef: ref, ValuePredicate: vp})
 	}
+	if g.Invalid == "" && rapid.IntRange(0, 7).Draw(t, "topicPins") == 0 {
+		// the ordinary shape of a real trigger - event signature plus indexed arguments pinned by BytesEq -
+		// with the pins listed in a generated order (definitions are written by users, not sorted)
+		g.D.LogPredicates = nil
+		pos := rapid.Permutation([]uint64{0, 1, 2, 3}).Draw(t, "pinOrder")[:rapid.IntRange(2, 4).Draw(t, "npins")]
+		for i, k := range pos {
+			arg := rapid.SliceOfN(rapid.Byte(), 32, 32).Draw(t, fmt.Sprintf("pin%d", i))
+			g.D.LogPredicates = append(g.D.LogPredicates, svc.LogPredicate{LogValueRef: svc.LogValueRef{Offset: k},
+				ValuePredicate: svc.ValuePredicate{Op: svc.BytesEq, IntArgs: []*big.Int{}, ByteArgs: [][]byte{arg}}})
+		}
+		n = len(pos)
+	}
 	if n > 0 && g.Invalid == "" && rapid.IntRange(0, 7).Draw(t, "invalidate") == 0 {
 		i := rapid.IntRange(0, n-1).Draw(t, "invIdx")
 		p := &g.D.LogPredicates[i]
@@ -565,7 +577,7 @@ type c17Case struct {
 
 func TestC17_DefinitionAndMatch(t *testing.T) {
 	rec := recorder("C17")
-	rec.AddRule("(a) generated definitions (every operator, topic offsets 0-3, static and dynamic data references, offsets up to 2^32-1 incl. k*2^w+4+j (w=27..31: positions that wrap onto existing words in narrow arithmetic), 0-4 predicates, integers 0/1/2^256-1/2^256/random, byte arguments of length 0/1/31/32/33/64/70; invalid variants labelled) crossed with logs built relative to the definition (0-4 topics, head/tail ABI layout aimed at satisfying or just missing each predicate, then hostile edits: truncation around word boundaries, offset/length words set to n-33..n+1, 2^16, 2^31, 2^32, 2^62, 2^63, 2^64-1). Oracles: Validate ok => Unmarshal(Marshal(d)) == d; Validate ok => ToFilterQuery succeeds; Match never panics, allocates <= 64 KiB + 4*(|data|+|args|), equals the reference semantics of docs/event.md whenever every reference lies inside the log; Match => log passes an independent eth_getLogs filter evaluation of ToFilterQuery. non-trivial = dynamic reference pointing outside the data, topic BytesEq whose argument is not 32 bytes, or a log matching all (>=1) predicates")
+	rec.AddRule("(a) generated definitions (every operator, topic offsets 0-3, static and dynamic data references, offsets up to 2^32-1 incl. k*2^w+4+j (w=27..31: positions that wrap onto existing words in narrow arithmetic), 0-4 predicates (one definition in eight: 2-4 topic BytesEq pins in a generated order), integers 0/1/2^256-1/2^256/random, byte arguments of length 0/1/31/32/33/64/70; invalid variants labelled) crossed with logs built relative to the definition (0-4 topics, head/tail ABI layout aimed at satisfying or just missing each predicate, then hostile edits: truncation around word boundaries, offset/length words set to n-33..n+1, 2^16, 2^31, 2^32, 2^62, 2^63, 2^64-1). Oracles: Validate ok => Unmarshal(Marshal(d)) == d; Validate ok => ToFilterQuery succeeds; Match never panics, allocates <= 64 KiB + 4*(|data|+|args|), equals the reference semantics of docs/event.md whenever every reference lies inside the log; Match => log passes an independent eth_getLogs filter evaluation of ToFilterQuery. non-trivial = dynamic reference pointing outside the data, topic BytesEq whose argument is not 32 bytes, or a log matching all (>=1) predicates")
 	rec.Assume("missing topics and dynamic references that leave the log data are 'not well formed': any yes/no answer is accepted there, only panics/allocation are judged")
 	runRapid(t, N(5000, 300000), c17MatchProp(rec))
 }
